@@ -119,6 +119,15 @@ def run(tier: str, seed: int) -> int:
                 res.notes.setdefault("known_finding_witnesses", {})[region] = w
             else:
                 res.spec_failures.append({**w, "what": f"semver precedence and list order disagree (region {region}, not a listed finding)"})
+    # 2b. a version is text (or the integer list): what a YAML / JSON loader makes of an unquoted 1.10 - the float 1.1 - has already lost what was
+    # written; a float is refused, never turned into some list
+    for obj in (1.10, 1.1, 0.300, 2.0, 1e3, 10.20):        # floats only: an integer or a boolean could be read faithfully, a float cannot (1.10 == 1.1)
+        r_ = impl_parse(obj)
+        res.case(["non-text", repr(obj)], nontrivial=True)
+        res.count("non-text:" + ("accepted" if "ok" in r_ else "refused"))
+        if "ok" in r_:
+            res.spec_failures.append({"value": repr(obj), "type": type(obj).__name__, "impl": r_,
+                                      "what": "a number that is not a version string is accepted as a version (an unquoted 1.10 reaches the tool as 1.1)"})
     # 3. VERSION files: default sequence number and default version
     from ncs import build as ncs_build  # noqa
     from configparser import ConfigParser
@@ -159,8 +168,13 @@ def run(tier: str, seed: int) -> int:
         elif layout == 4:
             lines_v = ["# version of the application", ""] + [ln.replace(" = ", "=") for ln in lines_v] + ["", "; end"]
         elif layout == 5:
+            # the system controller firmware's own version lives in the same file: its numbers depend on its own entries only
+            sys_tweak = [None, 3, 0, 255][(n // 6) % 4]
+            sys_extra = ["", "rc2", "beta", "dev"][(n // 24) % 4]
             lines_v = [x for k_, ln in enumerate(lines_v) for x in ("UNRELATED_%d =" % k_, ln)] + ["SYSCTRL_VERSION_MAJOR = 9", "SYSCTRL_VERSION_MINOR = 8", "SYSCTRL_VERSION_PATCH = 7",
-                                                                                           "SYSCTRL_VERSION_EXTRA ="]
+                                                                                           "SYSCTRL_VERSION_EXTRA =" + (" " + sys_extra if sys_extra else "")]
+            if sys_tweak is not None:
+                lines_v.append(f"SYSCTRL_VERSION_TWEAK = {sys_tweak}")
         text_v = ("\r\n" if layout == 3 else "\n").join(lines_v) + ("" if layout == 3 else "\n")
         with tempfile.TemporaryDirectory(prefix="verif_c20_") as vd:
             vf = os.path.join(vd, "VERSION")
@@ -172,6 +186,13 @@ def run(tier: str, seed: int) -> int:
             except Exception as ex:  # noqa
                 via_file = common.impl_err(ex)
         res.count(f"version-file-layout:{layout}")
+        if layout == 5 and "ok" in via_file:
+            want_seq = (9 << 24) + (8 << 16) + (7 << 8) + (sys_tweak or 0)
+            want_ver = "9.8.7" + {"": "", "rc2": "-rc.2", "beta": "-beta", "dev": "-alpha"}[sys_extra]
+            if str(got.get("SCFW_SEQ_NUM")) != str(want_seq) or got.get("SCFW_VERSION") != want_ver:
+                res.spec_failures.append({"case": [M, m, p, t, e], "version_file": text_v, "SCFW_SEQ_NUM": got.get("SCFW_SEQ_NUM"), "SCFW_VERSION": got.get("SCFW_VERSION"),
+                                          "expected": [want_seq, want_ver],
+                                          "what": "the system controller's sequence number / version are not those of its own SYSCTRL_VERSION_* entries"})
         if via_file != impl:
             res.spec_failures.append({"case": [M, m, p, t, e], "version_file": text_v, "through_the_file": via_file, "from_the_values": impl,
                                       "what": "the default version / sequence number read from the VERSION file differ from those of the values it holds"})
